@@ -98,6 +98,15 @@ def _reserve_one_ok(row, I, L0, mem):
         row.fail("growth must be expand(1), found %s(%s)" % (r["how"], r["n"]), r, "reserve")
     if not implies(r["facts"], ("eq0", _canon(as_poly(L0) - as_poly(cap)))) and not implies(r["facts"], cmp_fact("Le", cap, L0)):
         row.fail("expand is not guarded by LEN == CAP (known: %s)" % fmt_facts(r["facts"]), r, "reserve")
+    # room is made before anything else happens: beyond capacity the operation panics leaving the contents unchanged
+    for e in real_mutations(I):
+        if e is r or e.kind == "RESERVE":
+            continue
+        if not before_in(I, r, e) and not (e.kind == "STORE" and not is_len_path(e["path"])):
+            # the growth site sits in a branch: require that it cannot be reached after e
+            if r.gid in I.reachable_from(e.gid) or (r.gid == e.gid and e.idx < r.idx):
+                row.fail("%s at %s happens before room is made for the new element" % (e.kind, e.where()), e, "reserve-first")
+                break
 
 
 def _canon(p):
@@ -452,6 +461,7 @@ def r_formula(ctx):
     _clone_row(res, ctx, arms)
     _tempvalue_rows(res, ctx, ctors, ctor_by_adt)
     _swap_rows(res, ctx, arms)
+    _misc_rows(res, ctx, arms)
     _bytes_ptr_rows(res, ctx, ctors, ctor_by_adt)
     _into_range_row(res, ctx, arms)
     _backend_growth_rows(res, ctx, arms)
@@ -1049,4 +1059,120 @@ def _unver(base):
 
 
 def _strip_root(v):
+    return v
+
+
+# ---------------------------------------------------------------------------------------------------- further rows
+
+def _misc_rows(res, ctx, arms):
+    fx = ctx.fx
+    # dropping the vector destroys exactly its elements: Drop => LEN := 0, destroy [0, LEN0)
+    dp = None
+    for im in fx.impls_of("core::ops::Drop"):
+        if im["self_ty"].get("path") == "any_vec_raw::AnyVecRaw":
+            dp = im["items"][0]["path"]
+    if dp is None:
+        res.fail("any_vec_raw::AnyVecRaw", "vec-drop/any", "row `vec-drop`: the vector has no Drop impl: its elements are never destroyed (leak)")
+        res.inst()
+    else:
+        for tt, I in arms(dp):
+            row = Row(res, ctx, "vec-drop", dp, tt, I)
+            L0 = Poly.atom(("init", (("P", 1), ("len",)), 0))
+            ds = I.all_effects(("DESTROY",))
+            st, fl = _final_len(I)
+            if len(ds) != 1:
+                row.fail("dropping the vector must destroy its elements with one destructor call, found %d" % len(ds))
+            else:
+                s = slot_of(ds[0]["ptr"])
+                if not s or s[1] is None or s[1] != Poly() or as_poly(ds[0]["n"]) != L0:
+                    row.fail("dropping the vector destroys %s elements from slot %s, expected all LEN elements from slot 0" % (ds[0]["n"], s[1] if s else None), ds[0])
+            if fl != Poly():
+                row.fail("the length is not zeroed before the elements are destroyed", st)
+            row.done()
+    # AnyVec::get_unchecked{,_mut}: the element handle points at slot `index` of this vector
+    for p in ("any_vec::AnyVec::<Traits, M>::get_unchecked", "any_vec::AnyVec::<Traits, M>::get_unchecked_mut"):
+        for tt, I in arms(p):
+            row = Row(res, ctx, "element-handle", p, tt, I)
+            rets = I.all_effects(("RETURN",))
+            tr = dict(rets[0]["value"][1]) if rets and isinstance(rets[0]["value"], tuple) and rets[0]["value"][0] == "tree" else {}
+            el = [v for k, v in tr.items() if k and k[-1] == "element"]
+            vp = [v for k, v in tr.items() if k and k[-1] == "ptr"]
+            s = slot_of(el[0]) if el else None
+            if not s or s[1] is None or s[1] != Poly.atom(("param", 2)) or s[0] != (("P", 1), ("raw", "mem")):
+                row.fail("the element handle points at %s, expected slot `index` of this vector" % (el[0] if el else None,))
+            if not vp or vp[0] != ("ref", (("P", 1), ())):
+                row.fail("the element handle does not refer back to this vector")
+            row.done()
+    # clone_into of element handles and removal handles: one call of the vector's clone function over exactly this element
+    targets = []
+    for im in fx.impls_of("any_value::AnyValueCloneable"):
+        sp = im["self_ty"].get("path")
+        for it in im["items"]:
+            if it["name"] == "clone_into":
+                targets.append((sp, it["path"]))
+    if len(targets) < 3:
+        res.coverage_lost("any_value::AnyValueCloneable", "expected 3 clone_into impls, found %d" % len(targets))
+    for sp, p in targets:
+        substs = [None]
+        if sp == "ops::temp::TempValue":
+            substs = [{"Op": im["self_ty"]} for im in fx.impls_of("ops::temp::Operation")]
+        for sb in substs:
+            for tt, I in (ctx.arms(p, subst=sb) or []):
+                label = sp.split("::")[-1] + ((":" + sb["Op"]["path"].split("::")[-1]) if sb else "")
+                row = Row(res, ctx, "clone_into:" + label, p, tt, I)
+                cl = I.all_effects(("CLONE",))
+                ci = I.all_effects(("CLONE_INTO",))
+                rets = I.all_effects(("RETURN",))
+                if sp == "any_value::lazy_clone::LazyClone":
+                    if len(ci) != 1 or cl or not all(before_in(I, ci[0], r) for r in rets):
+                        row.fail("a lazy clone of a lazy clone must delegate exactly once to the source's clone_into")
+                    elif ptr_parts(ci[0]["out"]) is None or ptr_parts(ci[0]["out"])[0] != ("param", 2) or ptr_parts(ci[0]["out"])[1].m:
+                        row.fail("the clone is not produced at the requested destination", ci[0])
+                else:
+                    if len(cl) != 1 or not all(before_in(I, cl[0], r) for r in rets):
+                        row.fail("clone_into must call the vector's clone function exactly once on every path, found %d" % len(cl))
+                    else:
+                        c = cl[0]
+                        d = ptr_parts(c["dst"])
+                        if as_poly(c["n"]) != ONE:
+                            row.fail("clone_into clones %s elements, expected 1" % c["n"], c, "count")
+                        if d is None or d[0] != ("param", 2) or d[1].m:
+                            row.fail("the clone is not produced at the requested destination", c, "dst")
+                        if "clonetype_get" not in repr(c["fn"]) and "clone_fn" not in repr(c["fn"]):
+                            row.fail("the function called is not the vector's clone function (%s)" % (c["fn"],), c, "fn")
+                        # source = this handle's own bytes
+                        own = None
+                        for tt2, I2 in (ctx.arms(_bytes_ptr_of(fx, sp), subst=sb) or []):
+                            if tt2 == tt or not tt2:
+                                r2 = I2.all_effects(("RETURN",))
+                                own = r2[0]["value"] if r2 else None
+                        src = c["src"]
+                        if isinstance(src, tuple) and src and src[0] == "slice":
+                            src = src[1]
+                        if own is not None and _norm_ptr(src) != _norm_ptr(own):
+                            row.fail("the source passed to the clone function (%s) is not this value's bytes (%s)" % (src, own), c, "src")
+                row.done()
+    # creating / copying a lazy clone performs no clone and destroys nothing
+    for p in ("any_value::lazy_clone::LazyClone::<'a, T>::new", "<any_value::lazy_clone::LazyClone<'a, T> as core::clone::Clone>::clone", "any_value::AnyValueCloneable::lazy_clone"):
+        for tt, I in arms(p):
+            row = Row(res, ctx, "lazy-noop:" + p.split("::")[-1], p, tt, I)
+            bad = I.all_effects(("CLONE", "CLONE_INTO", "DESTROY", "COPY", "USER", "MOVE_INTO", "FORGET"))
+            if bad:
+                row.fail("creating or copying a lazy clone performs %s (%s)" % (bad[0].kind, bad[0].where()), bad[0])
+            row.done()
+
+
+def _bytes_ptr_of(fx, adt):
+    for im in fx.impls:
+        if im["self_ty"].get("path") == adt and im.get("trait") == "any_value::AnyValueSizeless":
+            for it in im["items"]:
+                if it["name"] == "as_bytes_ptr":
+                    return it["path"]
+    return None
+
+
+def _norm_ptr(v):
+    pp = ptr_parts(v)
+    if pp:
+        return ("ptr", _unver(pp[0]), pp[1])
     return v
